@@ -37,7 +37,22 @@ Lemma smeasure_ok : all2 (fun b => measureb_of snext smeasure (sreach b)) = true
 Proof. vm_compute. reflexivity. Qed.
 
 Definition sinv (s : sst) : bool :=
-  at_most_once s && exactly_once_on_return s && order_ok s && registered_closed_on_return s.
+  at_most_once s && exactly_once_on_return s && order_ok s && listed_closed_on_return s.
+
+Definition sinv2 (s : sst) : bool :=
+  registered_is_listed s && none_registered_on_return s && all_closed_or_unserved s && none_served_after_snapshot s.
+
+Lemma sinv2_ok : all2 (fun b => invb_of sinv2 (sreach b)) = true.
+Proof. vm_compute. reflexivity. Qed.
+
+(* transition checks: nobody registers, and no connection starts being served, once exit() has run *)
+Lemma no_late_registration_ok :
+  all2 (fun b => forallb (fun s => forallb (fun s' => no_late_registration s s' && no_late_service s s') (snext s)) (sreach b)) = true.
+Proof. vm_compute. reflexivity. Qed.
+
+(* every maximal run ends with both calls returned AND every accepted connection closed *)
+Lemma sall_over_ok : all2 (fun b => no_stuckb_of snext all_over (sreach b)) = true.
+Proof. vm_compute. reflexivity. Qed.
 
 Lemma sinv_ok : all2 (fun b => invb_of sinv (sreach b)) = true.
 Proof. vm_compute. reflexivity. Qed.
@@ -56,7 +71,7 @@ Lemma sclosed b : closedb_of snext scode (sinit b) (sreach b) = true.
 Proof. exact (all2_spec _ sclosed_ok b). Qed.
 
 Theorem stop_invariants : forall expire s, sreachable expire s ->
-  at_most_once s = true /\ exactly_once_on_return s = true /\ order_ok s = true /\ registered_closed_on_return s = true.
+  at_most_once s = true /\ exactly_once_on_return s = true /\ order_ok s = true /\ listed_closed_on_return s = true.
 Proof.
   intros b s R.
   pose proof (inv_gen snext scode scode_inj (sinit b) (sreach b) (sclosed b) sinv (all2_spec _ sinv_ok b) s R) as H.
@@ -113,9 +128,55 @@ Proof.
            (all2_spec _ smeasure_ok false) nil_end snil_end_ok s R).
 Qed.
 
-Theorem stop_closes_registered :
-  forall expire s, sreachable expire s -> registered_closed_on_return s = true /\ order_ok s = true.
-Proof. intros b s R. destruct (stop_invariants b s R) as [_ [_ [H1 H2]]]. auto. Qed.
+(* FULL statement about the connections Stop is responsible for: when a Stop call has returned without
+   timeout, every connection that was in srv.clients or srv.connecting when Stop listed them -
+   registered or not - is closed (and Unload/OnStop came after that); after the locked block every
+   registered connection is a listed one, and none is registered once Stop has returned; and no
+   transition registers a connection after exit() *)
+Theorem stop_closes_all :
+  forall expire s, sreachable expire s ->
+    listed_closed_on_return s = true /\ order_ok s = true /\
+    registered_is_listed s = true /\ none_registered_on_return s = true /\
+    (forall s', In s' (snext s) -> no_late_registration s s' = true).
+Proof.
+  intros b s R. destruct (stop_invariants b s R) as [_ [_ [H1 H2]]].
+  pose proof (inv_gen snext scode scode_inj (sinit b) (sreach b) (sclosed b) sinv2 (all2_spec _ sinv2_ok b) s R) as H.
+  unfold sinv2 in H. apply andb_true_iff in H as [H _]. apply andb_true_iff in H as [H _]. apply andb_true_iff in H as [H3 H4].
+  repeat split; try assumption.
+  intros s' Hin. pose proof (all2_spec _ no_late_registration_ok b) as N. cbv beta in N.
+  rewrite forallb_forall in N. pose proof (reach_complete_gen snext scode scode_inj (sinit b) (sreach b) (sclosed b) s R) as Rs.
+  specialize (N s Rs). rewrite forallb_forall in N. specialize (N s' Hin). now apply andb_true_iff in N as [N _].
+Qed.
+
+(* the strongest true form of "Stop leaves no connection behind": when a Stop call has returned
+   without timeout every listed connection is closed (waited for), and every other connection is
+   gone, not yet recorded (KA: the transition that records it closes it) or closed by addConnecting
+   and winding down (KX); once the locked block has run NO connection is served, and no transition
+   starts serving a connection after exit() *)
+Theorem stop_all_closed :
+  forall expire s, sreachable expire s ->
+    listed_closed_on_return s = true /\ all_closed_or_unserved s = true /\
+    none_served_after_snapshot s = true /\
+    (forall s', In s' (snext s) -> no_late_service s s' = true).
+Proof.
+  intros b s R. destruct (stop_invariants b s R) as [_ [_ [_ H2]]].
+  pose proof (inv_gen snext scode scode_inj (sinit b) (sreach b) (sclosed b) sinv2 (all2_spec _ sinv2_ok b) s R) as H.
+  unfold sinv2 in H. apply andb_true_iff in H as [H H6]. apply andb_true_iff in H as [_ H5].
+  repeat split; try assumption.
+  intros s' Hin. pose proof (all2_spec _ no_late_registration_ok b) as N. cbv beta in N.
+  rewrite forallb_forall in N. pose proof (reach_complete_gen snext scode scode_inj (sinit b) (sreach b) (sclosed b) s R) as Rs.
+  specialize (N s Rs). rewrite forallb_forall in N. specialize (N s' Hin). now apply andb_true_iff in N as [_ N].
+Qed.
+
+(* no connection stays open for ever: every maximal run ends with both Stop calls returned and every
+   accepted connection closed *)
+Theorem stop_all_over : forall expire s, sreachable expire s ->
+  ends_in snext (fun s => all_over s = true) s.
+Proof.
+  intros b s R.
+  exact (all_runs_end_gen snext scode scode_inj (sinit b) (sreach b) (sclosed b) smeasure
+           (all2_spec _ smeasure_ok b) all_over (all2_spec _ sall_over_ok b) s R).
+Qed.
 
 (* ---------------------------------------------------------------- witness runs *)
 
@@ -129,25 +190,27 @@ Proof.
   intros H. exists s. split; [|exact H]. eapply replay_reachable; [apply reach_init | exact E].
 Qed.
 
-(* STILL A DEFECT (kf_unregistered_survives): a connection that is still connecting when Stop takes
-   its snapshot is neither closed nor waited for: it is alive - here even REGISTERED - after Stop
-   has returned normally *)
-Definition run_unregistered : list nat := [0; 0; 0; 0; 0; 0; 0; 3].
+(* honest remainder (not a defect of the statement above): Stop does not WAIT for a connection that
+   is recorded after its locked block - it has been closed by addConnecting, is never served, and its
+   goroutines end on their own right after; so "all goroutines have exited when Stop returns" holds
+   only up to these *)
+Definition run_late_recorded : list nat := [2; 1; 1; 1; 1; 1; 1; 1].
 
-Lemma run_unregistered_ok :
-  find_run (fun s => kf_unregistered_survives s && negb (all_closed_on_return s)
-                     && (Nat.eqb (k1 s) 1 || Nat.eqb (k2 s) 1) && Nat.eqb (unl s) 1)
-           run_unregistered (sinit false) = true.
+Lemma run_late_recorded_ok :
+  find_run (fun s => late_recorded_not_waited_for s && negb (all_closed_on_return s) && Nat.eqb (unl s) 1
+                     && negb (served (k1 s)) && negb (served (k2 s)))
+           run_late_recorded (sinit false) = true.
 Proof. vm_compute. reflexivity. Qed.
 
-Theorem stop_closes_all_refuted :
+Theorem stop_does_not_wait_for_late_recorded :
   exists s, sreachable false s /\ returned s = true /\ ctx s = false /\ all_closed_on_return s = false
-            /\ kf_unregistered_survives s = true.
+            /\ late_recorded_not_waited_for s = true.
 Proof.
-  destruct (find_run_spec _ _ _ run_unregistered_ok) as [s [R H]].
-  apply andb_true_iff in H as [H _]. apply andb_true_iff in H as [H _]. apply andb_true_iff in H as [Hk Ha].
+  destruct (find_run_spec _ _ _ run_late_recorded_ok) as [s [R H]].
+  apply andb_true_iff in H as [H _]. apply andb_true_iff in H as [H _]. apply andb_true_iff in H as [H _].
+  apply andb_true_iff in H as [Hk Ha].
   exists s. split; [exact R|]. apply negb_true_iff in Ha.
-  unfold kf_unregistered_survives in Hk. pose proof Hk as Hk'.
+  unfold late_recorded_not_waited_for in Hk. pose proof Hk as Hk'.
   apply andb_true_iff in Hk as [Hk _]. apply andb_true_iff in Hk as [Hr Hc]. apply negb_true_iff in Hc. auto.
 Qed.
 
@@ -170,15 +233,15 @@ Qed.
 
 (* non-vacuity: a run with two registered connections, two Stop calls, everything closed,
    Unload and OnStop exactly once *)
-Definition run_clean : list nat := [2; 0; 3; 0; 0; 2; 1; 0; 0; 0; 0; 0].
+Definition run_clean : list nat := [2; 0; 4; 2; 0; 4; 0; 2; 1; 0; 0; 0; 0; 0].
 
 Lemma run_clean_ok :
-  find_run (fun s => both_returned s && Nat.eqb (unl s) 1 && Nat.eqb (ons s) 1 && Nat.eqb (k1 s) 3 && Nat.eqb (k2 s) 3 && w1 s && w2 s)
+  find_run (fun s => both_returned s && Nat.eqb (unl s) 1 && Nat.eqb (ons s) 1 && Nat.eqb (k1 s) KD && Nat.eqb (k2 s) KD && w1 s && w2 s)
            run_clean (sinit false) = true.
 Proof. vm_compute. reflexivity. Qed.
 
 Theorem stop_clean_run_exists :
-  exists s, sreachable false s /\ both_returned s = true /\ unl s = 1 /\ ons s = 1 /\ k1 s = 3 /\ k2 s = 3.
+  exists s, sreachable false s /\ both_returned s = true /\ unl s = 1 /\ ons s = 1 /\ k1 s = KD /\ k2 s = KD.
 Proof.
   destruct (find_run_spec _ _ _ run_clean_ok) as [s [R H]].
   apply andb_true_iff in H as [H _]. apply andb_true_iff in H as [H _].
@@ -204,6 +267,7 @@ Definition op_code (o : stop_op) : nat :=
   match o with
   | SDeferCloseExited => 0 | SExit => 1 | SCloseListeners => 2 | SShutdownWebsockets => 3 | SLock => 4
   | SSnapshotCloseClients => 5 | SUnlock => 6 | SStartWaiter => 7 | SWait => 8 | SUnload => 9 | SOnStop => 10
+  | SSnapshotCloseConnecting => 11
   end.
 
 Lemma op_code_inj a b : op_code a = op_code b -> a = b.
@@ -248,7 +312,8 @@ Qed.
 Definition count_op (a : stop_op) (l : list stop_op) : nat := List.length (filter (op_eqb a) l).
 
 Definition all_ops : list stop_op :=
-  [SDeferCloseExited; SExit; SCloseListeners; SShutdownWebsockets; SLock; SSnapshotCloseClients; SUnlock;
+  [SDeferCloseExited; SExit; SCloseListeners; SShutdownWebsockets; SLock; SSnapshotCloseClients;
+   SSnapshotCloseConnecting; SUnlock;
    SStartWaiter; SWait; SUnload; SOnStop].
 
 (* the required order, as pairs (earlier, later) *)
@@ -258,6 +323,9 @@ Definition required_order : list (stop_op * stop_op) :=
     (SCloseListeners, SSnapshotCloseClients);      (* ... and no new connections before the clients are listed *)
     (SShutdownWebsockets, SSnapshotCloseClients);
     (SLock, SSnapshotCloseClients); (SSnapshotCloseClients, SUnlock);   (* the snapshot is taken under srv.mu *)
+    (SExit, SSnapshotCloseConnecting); (SCloseListeners, SSnapshotCloseConnecting);
+    (SShutdownWebsockets, SSnapshotCloseConnecting);                    (* the same for the unregistered connections *)
+    (SLock, SSnapshotCloseConnecting); (SSnapshotCloseConnecting, SUnlock);
     (SUnlock, SStartWaiter); (SStartWaiter, SWait); (SUnlock, SWait);   (* the wait is outside srv.mu *)
     (SWait, SUnload); (SUnload, SOnStop) ].                             (* plugins and OnStop after the wait *)
 
@@ -274,7 +342,7 @@ Theorem stop_order :
 Proof.
   pose proof stop_order_okb_ok as H. unfold stop_order_okb in H. apply andb_true_iff in H as [H1 H2].
   split.
-  - intros o. rewrite forallb_forall in H1. apply Nat.eqb_eq. apply H1. destruct o; cbn; auto 12.
+  - intros o. rewrite forallb_forall in H1. apply Nat.eqb_eq. apply H1. destruct o; cbn; auto 14.
   - intros a b Hin. rewrite forallb_forall in H2. apply beforeb_spec. exact (H2 (a, b) Hin).
 Qed.
 
@@ -283,9 +351,12 @@ Corollary stop_order_core :
   before SExit SSnapshotCloseClients stop_ops /\ before SCloseListeners SSnapshotCloseClients stop_ops /\
   before SShutdownWebsockets SSnapshotCloseClients stop_ops /\
   before SLock SSnapshotCloseClients stop_ops /\ before SSnapshotCloseClients SUnlock stop_ops /\
+  before SExit SSnapshotCloseConnecting stop_ops /\ before SCloseListeners SSnapshotCloseConnecting stop_ops /\
+  before SShutdownWebsockets SSnapshotCloseConnecting stop_ops /\
+  before SLock SSnapshotCloseConnecting stop_ops /\ before SSnapshotCloseConnecting SUnlock stop_ops /\
   before SUnlock SWait stop_ops /\ before SWait SUnload stop_ops /\ before SUnload SOnStop stop_ops.
 Proof.
-  destruct stop_order as [_ H]. repeat split; apply H; cbn; auto 15.
+  destruct stop_order as [_ H]. repeat split; apply H; cbn; auto 20.
 Qed.
 
 (* the model's order IS the source's order: mapping every operation to the program counter of
@@ -294,7 +365,7 @@ Definition phase (o : stop_op) : option nat :=
   match o with
   | SDeferCloseExited => None
   | SExit | SCloseListeners | SShutdownWebsockets => Some O1
-  | SLock | SSnapshotCloseClients | SUnlock => Some O2
+  | SLock | SSnapshotCloseClients | SSnapshotCloseConnecting | SUnlock => Some O2
   | SStartWaiter | SWait => Some O3
   | SUnload => Some O4
   | SOnStop => Some O5
